@@ -148,6 +148,11 @@ def main():
     t_start = time.time()
     mod = importlib.import_module(modname)
     conds = mod.conditions(tier)
+    names = [c["name"] for c in conds]
+    dup = sorted(set(n for n in names if names.count(n) > 1))
+    if dup:           # the worker finds a condition by its name: two conditions with one name would be run with the wrong partition
+        print("ENGINE-ERROR: duplicate condition names in %s: %r" % (modname, dup), file=sys.stderr)
+        sys.exit(2)
     if only:
         conds = [c for c in conds if only in c["name"]]
     elif prop != "SELFTEST" and not getattr(mod, "NO_ENGINE_SELFTEST", False):
